@@ -19,6 +19,19 @@ def _member(node: ast.AST) -> Optional[Tuple[str, str]]:
     return None
 
 
+# module-level constant collections of enum members with a tree-unique name (`_COGEN_OPTIONS = [EndUseOptions.A, ...]`); set by the runner
+ENUM_LIST_CONSTANTS: Dict[str, ast.AST] = {}
+
+
+def _member_collection(rhs: ast.AST):
+    if isinstance(rhs, ast.Name) and rhs.id in ENUM_LIST_CONSTANTS:
+        rhs = ENUM_LIST_CONSTANTS[rhs.id]
+    if isinstance(rhs, ast.Call) and isinstance(rhs.func, ast.Name) and rhs.func.id in ('frozenset', 'set', 'tuple', 'list') \
+            and len(rhs.args) == 1 and not rhs.keywords:
+        rhs = rhs.args[0]
+    return rhs if isinstance(rhs, (ast.List, ast.Tuple, ast.Set)) else None
+
+
 def eval_enum_cond(test: ast.AST, assign: Dict[str, Tuple[str, str]]) -> Optional[bool]:
     """assign: attribute suffix ('econmodel.value') -> (Enum, MEMBER).  None = not decidable from the assignment."""
     if isinstance(test, ast.BoolOp):
@@ -47,7 +60,8 @@ def eval_enum_cond(test: ast.AST, assign: Dict[str, Tuple[str, str]]) -> Optiona
                 return None
             r = (m == cur)
             return r if isinstance(op, (ast.Eq, ast.Is)) else not r
-        if isinstance(op, (ast.In, ast.NotIn)) and isinstance(rhs, (ast.List, ast.Tuple, ast.Set)):
+        rhs = _member_collection(rhs) if isinstance(op, (ast.In, ast.NotIn)) else rhs
+        if isinstance(op, (ast.In, ast.NotIn)) and rhs is not None:
             ms = [_member(e) for e in rhs.elts]
             if any(m is None or m[0] != cur[0] for m in ms):
                 return None
